@@ -2,11 +2,13 @@ package main
 
 import (
 	"fmt"
+	"os"
 	"reflect"
 	"regexp"
 	"sort"
 	"strings"
 	"sync/atomic"
+	"time"
 
 	bexpr "github.com/hashicorp/go-bexpr"
 	"github.com/hashicorp/go-bexpr/grammar"
@@ -30,6 +32,8 @@ func obsOutcome(b bool, err error) string {
 
 // evalObs runs Evaluate under recover; P = panic.
 func evalObs(ev *bexpr.Evaluator, d interface{}) (o string) {
+	enter("Evaluate", ev.Expression(), d)
+	defer leave()
 	defer func() {
 		if r := recover(); r != nil {
 			o = "P"
@@ -53,7 +57,9 @@ func exprObs(expr string, d interface{}, opts ...bexpr.Option) (o string) {
 	if atomic.AddInt64(&obsCalls, 1)%97 == 0 {
 		poison()
 	}
+	enter("CreateEvaluator", expr, nil)
 	ev, err := bexpr.CreateEvaluator(expr, opts...)
+	leave()
 	if err != nil {
 		return "NOCREATE"
 	}
@@ -82,6 +88,8 @@ func parseTree(expr string) (grammar.Expression, bool) {
 
 // parseObs is the canonical observation of grammar.Parse: "A <steps> <tree>" or "R <steps> <maxflag>".
 func parseObs(b []byte, budget uint64) (o string) {
+	enter("Parse", string(b), budget)
+	defer leave()
 	defer func() {
 		if r := recover(); r != nil {
 			o = "PANIC"
@@ -105,6 +113,44 @@ func parseObs(b []byte, budget uint64) (o string) {
 		mx = 1
 	}
 	return fmt.Sprintf("R %d %d", n, mx)
+}
+
+// ---- watchdog: a call into the library that does not return is a violation with the call as its failing input ----
+
+type inFlight struct {
+	what, text string
+	arg        interface{}
+}
+
+var (
+	current  atomic.Value // *inFlight of the most recent call that has not returned
+	progress int64
+)
+
+func enter(what, text string, arg interface{}) { current.Store(&inFlight{what, text, arg}) }
+func leave()                                   { atomic.AddInt64(&progress, 1); current.Store((*inFlight)(nil)) }
+
+// watch ends the run when no call into the library returned for `limit`, reporting the call in flight.
+func watch(r *Run, limit time.Duration) {
+	go func() {
+		last, since := int64(-1), time.Now()
+		for {
+			time.Sleep(time.Second)
+			p := atomic.LoadInt64(&progress)
+			c, _ := current.Load().(*inFlight)
+			if p != last || c == nil {
+				last, since = p, time.Now()
+				continue
+			}
+			if time.Since(since) > limit {
+				r.Violate("does-not-return", "hang:"+c.what+":"+truncate(c.text, 80), map[string]interface{}{"call": c.what, "expression_or_input": c.text, "input_hex": hx(c.text), "argument": describe(c.arg)},
+					fmt.Sprintf("%s has not returned after %s", c.what, limit))
+				r.Finish()
+				fmt.Printf("%s: a call did not return; the run was ended\n", r.Prop)
+				os.Exit(0)
+			}
+		}
+	}()
 }
 
 // parseErrText is the text of grammar.Parse's error ("" when it accepts).
